@@ -91,7 +91,7 @@ class C19(Lab):
         "watchdog state before the first reset/enable/setTimeout is not judged (the class is documented as initialised disabled)",
     )
     budgets = {"quick": 12000, "thorough": 400000}
-    time_budget = {"quick": 80, "thorough": 1500}
+    time_budget = {"quick": 240, "thorough": 3600}
 
     def setup(self):
         simenv.init()
